@@ -157,7 +157,10 @@ fn gen_broker(rng: &mut Rng) -> Case {
             beh.tick.push(Act::Work(1 + rng.below(3) as u64));
         }
         let cap = if rng.chance(1, 4) { Some(rng.below(3)) } else { None };
-        let spec = SpawnSpec { k: 0, cap, behaviour: beh, ..default_spec() };
+        // a subscriber may be restarted (it subscribes again in `started`, under the identity it always had: a restart
+        // keeps the context and its id, whatever the strategy - C07 - so that re-subscribing stays idempotent)
+        let strat = if rng.chance(1, 3) { Strat::Recreate } else { Strat::Only };
+        let spec = SpawnSpec { k: 0, cap, strat, behaviour: beh, ..default_spec() };
         setup.push(Op::Spawn { a, spec, h: a });
     }
     // every client gets its own clone of every subscriber's address
@@ -211,7 +214,11 @@ fn gen_broker(rng: &mut Rng) -> Case {
                         ops.push(Op::Send { h, m: next_m, script: vec![Act::CtxStop] });
                     }
                 }
-                _ => ops.push(if rng.chance(1, 2) { Op::Sleep(1 + rng.below(3) as u64) } else { Op::Yield }),
+                _ => ops.push(match rng.below(3) {
+                    0 => Op::Sleep(1 + rng.below(3) as u64),
+                    1 => Op::Restart { h },
+                    _ => Op::Yield,
+                }),
             }
         }
         clients.push(ops);
